@@ -22,7 +22,7 @@ def run(tier):
     ev.assumptions = ["2^-128 chance of an accidental forgery is accepted", "reference model pinned to frozen vectors"]
     b = c01.bins(tier)
     ev.configs = [n for n, _ in b]
-    plan = [("c02_tamper", 16000 if tier == "quick" else 200000, 100)]
+    plan = [("c02_tamper", 50000 if tier == "quick" else 500000, 100)]
     rcrun.run_rc(ev, b, plan, finding_key)
     return finish(ev)
 
